@@ -4,7 +4,7 @@
    accepted fragment is "whole signals of any width", plus the already-flat top module that is returned as it is).
    Proofs: Proofs/C16EProofsRefine.v, C16EProofsBridge.v, C16EProofsNets.v.
 
-   Hypotheses (all boolean / decidable, evaluated by the correspondence run on every case - Corr/C16E.v, code 4):
+   The side conditions (all boolean / decidable, evaluated by the correspondence run on every case - Corr/C16E.v, code 4):
      wf_pkg prims_ext p = Ok tt     the hierarchical package is closed and self-consistent (Spec/PkgWf.v, C06),
      tree_wf p top = true           the hierarchy read from p has unique instance names per module and sub-module connections
                                     naming ports (Spec/C16Flat.v:wf_hier; implied by wf_pkg - not proved here),
